@@ -424,4 +424,4 @@ V("C11-s-last-row-propagation", "C11", "C11.4", (ITY, "        else:\n          
 INTERP = "desolver/utilities/interpolation.py"
 V("C06-t-find-interval-cache", "C06", "C06.9", (DS, "        idx = min(deutil.search_bisection(self.t_eval, t), len(self.y_interpolants) - 1)\n", "        idx = min(deutil.search_bisection(self.t_eval, t), len(self.y_interpolants) - 1)\n        self._last_idx = idx\n"))
 V("C19-w-getitem-cache", "C19", "C19.7", (DS, "                nearest_idx = int(D.ar_numpy.argmin(D.ar_numpy.abs(self.t - index)))\n", "                nearest_idx = int(D.ar_numpy.argmin(D.ar_numpy.abs(self.t - index)))\n                self._nearest = nearest_idx\n"))
-V("C17-s-interp-cache", "C17", "C17.6", (INTERP, "        t2 = t ** 2\n", "        self._t_last = t\n        t2 = t ** 2\n"))
+V("C17-s-interp-cache", "C17", "C17.6", (INTERP, "        t2 = t**2\n", "        self._t_last = t\n        t2 = t**2\n"))
